@@ -275,7 +275,9 @@ def check_heap(rep, repo: Repo, pre: str = "") -> None:
         w = SP[("go_up", pol)]
         loops = [li for li in w.loops.values() if li.kind == "while"]
         if len(loops) != 1:
-            raise AnalysisError(f"Heap.go_up[{pol}]: expected one sift loop, found {len(loops)}")
+            rep.fn(pre + "H3-up-loop", w.entry, f"go_up sifts in one loop  [{pol}]", False,
+                   f"expected one sift loop in go_up, found {len(loops)}: an inserted / improved element is not moved towards the root")
+            continue
         li = loops[0]
         I = ("phi", li.lid, w.entry.params[1])
         cs = conj(li.cond)
@@ -345,8 +347,10 @@ def check_heap(rep, repo: Repo, pre: str = "") -> None:
             if cur is not None and any(_cost_cmp(c) for c in facts(e.guards)):
                 cands.append((e, v, cur, which))
         if len(cands) != 2 or {c[3] for c in cands} != {"left", "right"}:
-            raise AnalysisError(f"Heap.go_down[{pol}]: expected one left and one right child selection, found "
-                                f"{[c[3] for c in cands]}")
+            rep.fn(pre + "H3-down-children", w.entry, f"go_down selects among the left and the right child under cost tests  [{pol}]",
+                   False, f"expected one left and one right child selection guarded by a cost comparison, found {[c[3] for c in cands]}: "
+                   "the element moved to the root is not compared with both of its children")
+            continue
         cands.sort(key=lambda c: c[0].seq)
         first, second = cands
         I = first[2]
@@ -395,7 +399,9 @@ def check_heap(rep, repo: Repo, pre: str = "") -> None:
                 J = strip_old(li.carried[I[2]][1])
                 loop_form = li
         if J is None:
-            raise AnalysisError(f"Heap.go_down[{pol}]: neither a recursive descent nor a position-carrying loop found")
+            rep.fn(pre + "H3-down-rec", w.entry, f"go_down continues at the chosen child  [{pol}]", False,
+                   "neither a recursive descent nor a position-carrying loop: the sift-down stops after one level")
+            continue
         okJ = J[0] == "sel" and sel_leaves(J) == {first[1], second[1], I}
         rep.fn(pre + "H3-down-choice", w.entry, f"the walk continues at the better of (i, left, right)  [{pol}]", okJ,
                f"the position the walk continues at is '{show(J)[:120]}'")
@@ -439,7 +445,10 @@ def check_heap(rep, repo: Repo, pre: str = "") -> None:
                     f for f in stores
                     if f.seq > e.seq and f.guards == e.guards and f.loops == e.loops
                     and f.target[0] == "idx" and f.target[1] == POS and npos(f.value) == a
-                    and (npos(f.target[2]) == ("idx", P, a) or f.target[2] == v
+                    and (npos(f.target[2]) == ("idx", P, a)
+                         # the element itself, held in a local: only when it is not spelt as a read of p[] (the same
+                         # spelling read after the store denotes another element)
+                         or (f.target[2] == v and not any(u[0] == "idx" and u[1] == P for u in subterms(v)))
                          or (f.target[2][0] == "old" and f.target[2][1] == strip_old(v)))
                 ]
                 rep.ev(pre + "H2", e, len(match) >= 1,
@@ -518,6 +527,12 @@ def check_heap(rep, repo: Repo, pre: str = "") -> None:
         ok = len(st) == 1 and filled(st[0].value, ("param", init.entry.params[1])) == (val, True)
         rep.fn(pre + "H-init", init.entry, f"{fld}[] has one slot per element (capacity `size`) initialised to {show(val)}", ok,
                f"{fld} is initialised as '{show(st[0].value) if st else '?'}' over '{show(st[0].value[2][0][0]) if st and st[0].value[0] == 'listcomp' else '?'}'")
+
+    for fld, want, txt in (("last", ("const", -1), "-1 (empty)"), ("size", ("param", init.entry.params[1]), "the capacity argument"),
+                           ("policy", ("param", init.entry.params[2]) if len(init.entry.params) > 2 else None, "the policy argument")):
+        st = [e for e in init.events if e.kind == "store" and e.target == ("attr", SELF, fld)]
+        rep.fn(pre + "H-init", init.entry, f"{fld} starts as {txt}", len(st) == 1 and st[0].value == want and not st[0].guards,
+               f"{fld} is initialised as '{show(st[0].value) if st else 'nothing'}'")
 
     # ---- H6 capacity ------------------------------------------------------------------
     def ret_cond(w: Walker) -> Optional[Term]:
